@@ -93,6 +93,19 @@ def run(res, tier, replay):
     cases = []
     for i in range(n):
         nm = gen_name(rng); cases.append("%d %d %d %s" % (rng.randrange(2), rng.randrange(2), rng.randrange(2), nm.hex()))
+    # directed: '..' followed by a separator, every character spelled in every way the name converter may accept
+    # (plain, 2-, 3- and 4-byte over-long forms), in front of / between / behind ordinary components, for all flag settings
+    DOT = [b".", b"\xc0\xae", b"\xe0\x80\xae", b"\xf0\x80\x80\xae"]
+    SEP = [b"/", b"\\", b"\xc0\xaf", b"\xe0\x80\xaf", b"\xf0\x80\x80\xaf", b"\xc1\x9c", b"\xe0\x81\x9c"]
+    directed = []
+    for d1 in DOT:
+        for d2 in DOT:
+            for sp in SEP:
+                core = d1 + d2 + sp
+                for nm in (core + b"x", b"a" + SEP[rng.randrange(2)] + core + b"x", core + core + b"x", sp + core + b"x"):
+                    for fl in range(8): directed.append("%d %d %d %s" % (fl & 1, (fl >> 1) & 1, (fl >> 2) & 1, nm.hex()))
+    if tier == "quick": directed = [c for c in directed if c.split()[2] == "1"] + rng.sample(directed, 200)
+    cases = directed + cases
     rc_m, out_m, err_m = vlib.run_lines(mexe, ["outname"], cases)
     rc_c, out_c, err_c = vlib.run_lines(cx, ["outname"], cases)
     diffs = [(c, a, b) for c, a, b in zip(cases, out_m, out_c) if a != b]
